@@ -269,6 +269,18 @@ class DecisionInterp:
                     nxt.append(st)           # docstring, logging
                 elif isinstance(stmt, ast.Pass):
                     nxt.append(st)
+                elif isinstance(stmt, ast.Assign) and len(
+                        stmt.targets) == 1 and isinstance(
+                            stmt.targets[0], ast.Name):
+                    tgt = stmt.targets[0].id
+                    sym = self._clock_value(func, stmt.value, roles)
+                    if sym is not None:
+                        st.clock[tgt] = sym
+                    else:
+                        st.clock.pop(tgt, None)
+                        if isinstance(stmt.value, ast.Call):
+                            self._effect_call(stmt.value, roles, st)
+                    nxt.append(st)
                 elif isinstance(stmt, ast.Return):
                     val = stmt.value
                     if val is None or (isinstance(val, ast.Constant) and
